@@ -7,6 +7,6 @@ cd "$WT"
 # demonstration = untracked files (excluding SEEDED.md); source change = tracked modifications
 git diff > "$D/patch.diff"
 mkdir -p "$D/demo"
-git ls-files --others --exclude-standard | grep -v '^SEEDED.md$' | while read f; do mkdir -p "$D/demo/$(dirname "$f")"; cp "$f" "$D/demo/$f"; done
+git ls-files --others --exclude-standard | grep '\.go$' | while read f; do mkdir -p "$D/demo/$(dirname "$f")"; cp "$f" "$D/demo/$f"; done
 cp SEEDED.md "$D/SEEDED.md" 2>/dev/null || true
 echo "stored $D: $(wc -l < "$D/patch.diff") patch lines; demo files: $(cd "$D/demo" && find . -type f | tr '\n' ' ')"
